@@ -13,7 +13,7 @@ VERIF = batch.VERIF
 
 class Profile:
     def __init__(self, prop, run_seed, replay_case, quick_runs, quick_budget, thorough_budget, rule, assumptions,
-                 evidence_extra=None, pre=None, step_slots=None):
+                 evidence_extra=None, pre=None, step_slots=None, sweep=None):
         self.prop = prop
         self.run_seed = run_seed
         self.replay_case = replay_case
@@ -25,6 +25,7 @@ class Profile:
         self.evidence_extra = evidence_extra
         self.pre = pre
         self.step_slots = step_slots
+        self.sweep = sweep
 
 
 PROFILES: dict[str, Profile] = {}
@@ -35,7 +36,7 @@ PROFILES: dict[str, Profile] = {}
 _cov_reported: set = set()
 
 
-def c12_run_seed(seed: int, want_sample: bool = False) -> dict:
+def c12_run_seed(seed, want_sample: bool = False) -> dict:
     r = runner.run_c12_seed(seed, want_sample)
     new = [k for k in seam.COVERED if k not in _cov_reported]
     _cov_reported.update(new)
@@ -73,10 +74,25 @@ def c12_evidence_extra(agg: dict) -> dict:
         "catalogue": {"ops": len(OPS), "ops_with_successful_execution": len(OPS) - len(never_ok),
                       "never_successful": never_ok},
         "uncatalogued_api": uncatalogued_api(),
+        "directed_write_site_sweep": {k: v for k, v in (agg.get("sweep") or {}).items() if k != "stats"} | {
+            "sites_swept": len(agg.get("site_hits", {})), "variants": runner.VARIANTS,
+            "variant_runs": (agg.get("sweep") or {}).get("stats", {}).get("directed", {})},
         "real_vs_stub": {"real": ["geometer (all modules)", "numpy", "CPython threads"],
                          "simulated": ["client scheduling", "logical clock", "fault delivery", "cache eviction"],
                          "stubbed": []},
     }
+
+
+def c12_sweep(agg, tier):
+    """Directed fault sweep: every write-site reached by the random phase gets every fault variant, aimed right
+    before and right after the write, on up to `per_site` programs that reached it."""
+    per_site = 1 if tier == "quick" else 3
+    tasks = []
+    for site in sorted(agg.get("site_hits", {})):
+        for seed in agg["site_hits"][site][:per_site]:
+            for variant in runner.VARIANTS:
+                tasks.append((seed, list(site), variant))
+    return tasks
 
 
 PROFILES["C12"] = Profile(
@@ -96,7 +112,7 @@ PROFILES["C12"] = Profile(
         "bitwise answer comparison; differences within 8 ulp with unchanged state are counted as numeric_noise",
         "sampling, not enumeration: a clean batch is evidence, not proof",
     ],
-    evidence_extra=c12_evidence_extra,
+    evidence_extra=c12_evidence_extra, sweep=c12_sweep,
 )
 
 
@@ -175,6 +191,67 @@ PROFILES["C05"] = Profile(
 
 
 # ---------------------------------------------------------------------------------------------------------------------
+# C06
+
+
+def c06_evidence_extra(agg: dict) -> dict:
+    st = agg["stats"]
+    return {
+        "steps_executed": st.get("steps", 0),
+        "logical_clock_line_events": st.get("lines", 0),
+        "simulated_time": "none - the system has no clock",
+        "applications_by_kind": st.get("applications", {}),
+        "law_probes": st.get("laws", {}),
+        "representation_invariants_checked": st.get("rep_invariants", 0),
+        "law_probes_where_both_sides_raised": st.get("both_raised", 0),
+        "max_projective_defect_seen": st.get("max_projective_defect", 0.0),
+        "tolerance": "1 - cos^2 <= 1e-12 (projective angle <= 1e-6); generated chains keep cond <= 1e4, entries <= 1e6",
+        "faults_fired": {"note": "none injected: asynchronous exceptions, eviction and pre-emption interact with the "
+                                 "group laws only through purity, which is C12's subject (DESIGN.md section 6)"},
+        "configurations": agg["configs"],
+        "real_vs_stub": {"real": ["geometer (transformation, base, shapes, point, curve, utils.math)", "numpy"],
+                         "simulated": ["history generation", "logical clock (line count only)"],
+                         "reference_model": "M6: laws on library-computed sides + numpy shadow matrices for conditioning",
+                         "stubbed": []},
+    }
+
+
+def _c06_run_seed(seed, want_sample=False):
+    from . import model_group as MG
+
+    return MG.run_c06_seed(seed, want_sample)
+
+
+def _c06_replay(case):
+    from . import model_group as MG
+
+    return MG.replay_case(case)
+
+
+PROFILES["C06"] = Profile(
+    "C06", _c06_run_seed, _c06_replay, quick_runs=4000, quick_budget=120, thorough_budget=600,
+    rule=("one evaluation = one seeded history in dimension 1, 2 or 3: a pool of invertible transformations (integer "
+          "matrices with |det| in 1..6, translations, rotations, scalings, a TransformationCollection of length 1, 2, 3, "
+          "64 or 65) and of objects of every transformable kind (points, lines, planes, quadrics incl. dual, segments, "
+          "polygons in 2D/3D, polyhedra, and collections of these), then 6-30 steps: x <- t*x (chains up to 8), "
+          "t <- s*t, t <- t.inverse(), t <- t**k, identity, and law probes L1-L4 on the evolved values; L5 (same kind, "
+          "same shape, cached _line/_plane contains the image vertices) after every application. distinct = distinct "
+          "(pool kinds, step sequence) signature; non-trivial = at least two successful apply/compose/pow/inverse "
+          "steps"),
+    assumptions=[
+        "projective comparison with tolerance 1e-12 on 1-cos^2; the generator keeps every chain's condition number "
+        "<= 1e4 (numpy shadow), which bounds legitimate float discrepancies far below the tolerance",
+        "TransformationCollections are applied only to point/line/plane/quadric collections of the same length; "
+        "their action on polytopes and single objects aligns free indices in a way the statement does not define",
+        "no fault dimension (see DESIGN.md section 6); histories only",
+        "sampling, not enumeration",
+    ],
+    evidence_extra=c06_evidence_extra,
+    step_slots=lambda s: [s[k] for k in ("s", "t", "x") if k in s],
+)
+
+
+# ---------------------------------------------------------------------------------------------------------------------
 # drivers
 
 
@@ -205,6 +282,20 @@ def do_check(prof: Profile, args) -> int:
     agg = batch.run_batch(prof.run_seed, args.seed, n_runs, budget, args.workers,
                                 progress=_progress if tier == "thorough" else None)
     agg.setdefault("cov", set())
+    if prof.sweep is not None and not agg["harness_errors"] and not agg["violations"]:
+        tasks = prof.sweep(agg, tier)
+        t1 = time.time()
+        agg2 = batch.run_batch(prof.run_seed, args.seed, None, max(60.0, budget), args.workers, tasks=tasks)
+        agg["sweep"] = {"tasks": len(tasks), "runs": agg2["runs"], "configs": agg2["configs"],
+                        "wall_s": round(time.time() - t1, 1), "stats": agg2["stats"]}
+        batch.merge(agg["stats"], agg2["stats"])
+        agg["runs"] += agg2["runs"]
+        agg["wall"] += agg2["wall"]
+        agg["harness_errors"] += agg2["harness_errors"]
+        agg["violations"].update(agg2["violations"])
+        agg["cov"].update(agg2.get("cov", set()))
+        for k, v in agg2["configs"].items():
+            agg["configs"][k] = agg["configs"].get(k, 0) + v
     if agg["harness_errors"]:
         for h in agg["harness_errors"][:5]:
             print("HARNESS-ERROR", h[:3000])
